@@ -199,8 +199,24 @@ def corrupt(rng, octets: bytes) -> tuple[bytes, str]:
     return bytes(b), kind
 
 
+def fcs16_trailer(octets: bytes) -> bytes:
+    from vf.ref import fcs16
+
+    return fcs16.trailer(octets)
+
+
 def noise(rng, n: int, flavour: str | None = None) -> tuple[bytes, str]:
-    flavour = flavour or rng.choice(("random", "dense", "lookalike", "abort", "flagfree", "esc_end", "idle_line"))
+    flavour = flavour or rng.choice(("random", "dense", "lookalike", "abort", "flagfree", "esc_end", "idle_line", "length_sweep"))
+    if flavour == "length_sweep":
+        # a header with correct check sequence whose length field is small - below, at and just above the size of the header itself
+        # (so that the announced information field has -2, 0, 1, 2 ... octets) - followed by more octets than any frame may have
+        dst = hdlc_ref.address(rng, rng.choice((1, 1, 2, 4)))
+        src = hdlc_ref.address(rng, rng.choice((1, 1, 2, 4)))
+        hlen = 2 + len(dst) + len(src) + 1 + 2
+        length = rng.choice((hlen - 2, hlen - 1, hlen, hlen + 1, hlen + 2, hlen + 3, hlen + 4, rng.randint(0, 40)))
+        header = bytes((0xA0 | rng.choice((0, 0, 8)), length & 0xFF)) + dst + src + bytes((rng.randrange(256),))
+        body = bytes(b if b != FLAG else 0x7F for b in rng.randbytes(rng.choice((5, 60, 2050, 2100, 2300))))
+        return bytes((FLAG,)) + header + fcs16_trailer(header) + body + rng.choice((b"", bytes((FLAG,)))), flavour
     if flavour == "idle_line":
         # well-formed frames with idle / break characters between them (mark idle 0xFF, NUL, flow control) instead of - or next to - flags
         out = b""
@@ -232,7 +248,7 @@ def on_wire(octets: bytes, stuffing: bool) -> bytes:
 def special_frame(rng, ids: IdSource | None = None, kind: str | None = None) -> tuple[bytes, dict, str]:
     """Well-formed frames at the boundary values of the check sequences (zero / all ones / flag / escape octets) and of the
     running FCS register (0x0000 in the middle of the information field), and near-maximum frames dense in flag/escape octets."""
-    kind = kind or rng.choice(("hcs_zero", "fcs_zero", "fcs_ffff", "fcs_ends_7d", "fcs_has_7e", "reg_zero_mid", "reg_zero_mid", "near_max_dense", "header_only_fcs_zero"))
+    kind = kind or rng.choice(("hcs_zero", "fcs_zero", "fcs_ffff", "fcs_ends_7d", "fcs_has_7e", "reg_zero_mid", "reg_zero_mid", "near_max_dense", "header_only_fcs_zero", "fcs_equals_other_field", "fcs_equals_other_field"))
     ftype, seg = 0xA, False
     if kind in ("hcs_zero", "header_only_fcs_zero"):
         n_info = 0 if kind == "header_only_fcs_zero" else rng.randint(6, 40)
@@ -274,6 +290,12 @@ def special_frame(rng, ids: IdSource | None = None, kind: str | None = None) -> 
         for k in range(pos + 2, min(n, pos + 12)):
             if body[k] in (0x7E, 0x7D):
                 body[k] = 0x11
+    elif kind == "fcs_equals_other_field":
+        # the frame check sequence coincides with another field of the same frame: the header check sequence, the format field,
+        # the first two information octets, the two address octets next to the control field (either octet order)
+        field = rng.choice((head[-2:], head[:2], bytes(body[:2]), header[-3:-1], bytes(body[6:8])))
+        lo, hi = (field[0], field[1]) if rng.random() < 0.8 else (field[1], field[0])
+        body[n - 2 : n] = fcs16.force(fcs16.register(head + bytes(body[: n - 2])), (~((hi << 8) | lo)) & 0xFFFF)
     else:
         target = {"fcs_zero": 0xFFFF, "fcs_ffff": 0x0000, "fcs_ends_7d": (~((0x7D << 8) | rng.randrange(256))) & 0xFFFF,
                   "fcs_has_7e": (~((rng.randrange(256) << 8) | 0x7E)) & 0xFFFF}[kind]
